@@ -95,6 +95,12 @@ def run(ctx, rep, tier):
                         for g3, ce in flatten_value(cv.fields[0]):
                             progs.append((b_and(g, g1, g2, g3), cr, ce))
         for gprog, cr, ce in progs:
+          if is_sym(gprog):
+              chk = z3.Solver()
+              chk.add(*[a for a in pr.assume if a is not True])
+              chk.add(gprog)
+              if chk.check() == z3.unsat:
+                  continue                 # an alternative of the compile result that no input of this family reaches
           for k in range(0, kmax + 1):
             p = [sym_char() for _ in range(k)]
             q = [sym_char() for _ in range(k)]
@@ -155,27 +161,38 @@ def run(ctx, rep, tier):
                 cr.I.assumptions = passume
             # the segment is one string literal decoding to the path: solver query over the path characters
             if k and nsym is None:
-                g1, rp1 = A1[0]
-                a = analyze(rp1, p)
-                assume = [char_valid(c) for c in p]
-                if a["error"]:
-                    rep.violation("render:unreadable", "program for %r unreadable: %s" % (text, a["error"]), dict(expr=text))
-                    continue
-                lits = {id(s_): s_ for _, _, s_ in a["occurrences"]}
-                whole = len(lits) == 1 and all(len(s_.items) == k for s_ in lits.values())
-                if not whole:
-                    rep.violation("render:path-literal", "the device path is not the whole content of exactly one string literal for %r" % text, dict(expr=text))
-                res, m = B.solve(tag + ":path-stays-data", assume, a["bad"])
+                # rendered for ARBITRARY path characters (an escaping generator yields one rope per escaping pattern)
+                assume = [char_valid(c) for c in p] + list(pr.assume) + [gprog]
+                cr.I.assumptions = assume
+                AP = render_with(B, cr, ce, p)
+                cr.I.assumptions = passume
+                bad_data, broken = False, False
+                for gA, rpA in AP:
+                    a = analyze(rpA, p)
+                    if a["error"]:
+                        bad_data = b_or(bad_data, gA)
+                        continue
+                    lits = {id(s_): s_ for _, _, s_ in a["occurrences"]}
+                    whole = len(lits) == 1 and all(len(s_.items) == k and all(x is y or (is_sym(x) and x.eq(y)) for x, y in zip(s_.items, p)) for s_ in lits.values())
+                    scan_ok = False
+                    try:
+                        scan = find_scan(read_all(rpA))
+                        scan_ok = scan is not None and isinstance(scan[1], Str) and len(scan[1].items) == k
+                    except ReadError:
+                        pass
+                    if not whole or not scan_ok:
+                        broken = b_or(broken, gA)
+                    bad_data = b_or(bad_data, b_and(gA, a["bad"]))
+                res0, m0 = B.solve(tag + ":path-is-the-scan-literal", assume, broken)
+                if res0 == z3.sat:
+                    path = "".join(chr(model_char(m0, c)) for c in p)
+                    d = B.ctx.run_native([(text, path)], "debug")[0]
+                    rep.violation("render:path-literal", "the device path %r is not the whole content of the first argument of lipe-scan for %r" % (path, text),
+                                  dict(expr=text, mdt=path, native_scheme=d.get("scheme", "")[-300:]))
+                res, m = B.solve(tag + ":path-stays-data", assume, bad_data)
                 if res == z3.sat:
                     path = "".join(chr(model_char(m, c)) for c in p)
                     confirm(B, rep, known, text, path)
-                try:
-                    data = read_all(rp1)
-                    scan = find_scan(data)
-                    if scan is None or not isinstance(scan[1], Str) or len(scan[1].items) != k:
-                        rep.violation("render:scan-arg", "the device path is not the first argument of lipe-scan for %r" % text, dict(expr=text))
-                except ReadError:
-                    pass
         samples.append(dict(expr=text, path_lengths=list(range(0, kmax + 1)), programs=len(progs)))
     cov = B.coverage_common()
     cov.update(explanation="scheme(&self, mdt) executed from MIR on %d compiled expressions with symbolic device paths of every length "
